@@ -1,4 +1,5 @@
-(* C14: concrete witnesses (non-vacuity of "admitted", and the refutations on the defect domains F7, F8, F8b, F8c). *)
+(* C14: concrete witnesses (non-vacuity of "admitted", the refutations on the defect domains F7 and F8c, and the former
+   counterexamples of F8 / F8b, which the repaired validator rejects). *)
 From KV Require Import Base.Prelude Base.StrFind Base.DnsName Model.Validator Proofs.ValidatorP.
 Open Scope string_scope.
 Open Scope list_scope.
@@ -41,9 +42,6 @@ Lemma ex_runnable : runnable ex_env (set_default ex_exp).
 Proof.
   constructor.
   - discriminate.
-  - cbn. repeat constructor; cbn; intuition discriminate.
-  - intros t ps [= <-] [= <-] n I. cbn in I.
-    destruct I as [<-|[<-|[]]]; [exists ex_tp1|exists ex_tp2]; cbn; auto.
   - intros t ps [= <-] [= <-]. repeat constructor; intro H; discriminate H.
   - intros t [= <-]. discriminate.
 Qed.
@@ -52,27 +50,32 @@ Lemma ex_runs : apply_parameters ex_env (set_default ex_exp) [("mom", "0.9"); ("
                 Ok [("learningRate", VAssign "3"); ("momentum", VAssign "0.9")].
 Proof. vm_compute. reflexivity. Qed.
 
-(* F8: an unreferenced spec.parameters entry is admitted, and then no assignment can be turned into a trial *)
+(* F8 (repaired, rule 60): an unreferenced spec.parameters entry - no assignment could be turned into a trial - is rejected *)
 Definition f8_exp : experiment := ex_exp_with "exp-a1" (ex_params ++ [ex_param "extra" PInt]) ex_tparams.
 
-Lemma f8_refuted : exists en e0 asg,
-  admitted en e0 /\ assignment_for (set_default e0) asg /\ apply_parameters en (set_default e0) asg = Err 5%nat.
-Proof.
-  exists ex_env, f8_exp, [("lr", "3"); ("mom", "0.9"); ("extra", "1")].
-  split; [vm_compute; reflexivity|]. split; [|vm_compute; reflexivity].
-  split; [reflexivity|]. cbn. intuition.
-Qed.
+Lemma f8_rejected : validate ex_env (set_default f8_exp) = Ok [(60%nat, 2%nat)].
+Proof. vm_compute. reflexivity. Qed.
 
-(* F8b: duplicate names in spec.parameters *)
+Lemma f8_would_fail : apply_parameters ex_env (set_default f8_exp) [("lr", "3"); ("mom", "0.9"); ("extra", "1")] = Err 5%nat.
+Proof. vm_compute. reflexivity. Qed.
+
+(* F8b (repaired, rule 59): duplicate names in spec.parameters are rejected *)
 Definition f8b_exp : experiment := ex_exp_with "exp-a1" (ex_params ++ [ex_param "lr" PInt]) ex_tparams.
 
-Lemma f8b_refuted : exists en e0 asg,
-  admitted en e0 /\ assignment_for (set_default e0) asg /\ apply_parameters en (set_default e0) asg = Err 5%nat.
-Proof.
-  exists ex_env, f8b_exp, [("lr", "3"); ("mom", "0.9"); ("lr", "1")].
-  split; [vm_compute; reflexivity|]. split; [|vm_compute; reflexivity].
-  split; [reflexivity|]. cbn. intuition.
-Qed.
+Lemma f8b_rejected : validate ex_env (set_default f8b_exp) = Ok [(59%nat, 2%nat)].
+Proof. vm_compute. reflexivity. Qed.
+
+Lemma f8b_would_fail : apply_parameters ex_env (set_default f8b_exp) [("lr", "3"); ("mom", "0.9"); ("lr", "1")] = Err 5%nat.
+Proof. vm_compute. reflexivity. Qed.
+
+(* a parameter whose name has the form of a trial-metadata reference can only be referenced by a trial parameter the generator
+   treats as metadata: rejected by rule 60 as well (this was the second half of unresolvable-trial-metadata) *)
+Definition f8c_key_tparams : list tparam :=
+  [ ex_tp1; {| tp_name := "momentum"; tp_ref := "${trialSpec.Foo}"; tp_sub := Some "Foo"; tp_idx := None |} ].
+Definition f8c_key_exp : experiment := ex_exp_with "exp-a1" [ex_param "lr" PInt; ex_param "${trialSpec.Foo}" PCat] f8c_key_tparams.
+
+Lemma f8c_key_rejected : validate ex_env (set_default f8c_key_exp) = Ok [(60%nat, 1%nat)].
+Proof. vm_compute. reflexivity. Qed.
 
 (* F8c: a reference to a label the template does not carry *)
 Definition f8c_tparams : list tparam :=
